@@ -88,10 +88,12 @@ func (c Context) Update(other Context) Context {
 // To create your own execution context within tags, use the
 // NewChildExecutionContext(parent) function.
 type ExecutionContext struct {
-	template   *Template
-	macroDepth int
-	depth      int // how many templates are executing this one through include/ssi
-	superDepth int // how many block.Super calls are executing this one
+	template *Template
+
+	// nesting counts the macro calls, block.Super calls and nested templates that are
+	// being executed. Like nodeState it belongs to the rendering and is shared with
+	// all child contexts and with the templates executed by include/ssi.
+	nesting *executionNesting
 
 	// nodeState keeps the state tags need to remember between their executions within
 	// one rendering (e.g. the position of a cycle), keyed by node. It belongs to the
@@ -102,6 +104,26 @@ type ExecutionContext struct {
 	Public     Context
 	Private    Context
 	Shared     Context
+}
+
+// executionNesting is what bounds the recursion of an execution. It is kept once per
+// rendering and not in each context: a macro body runs in a context derived from the one
+// its macro tag was executed in (not from the caller's), so a count kept per context
+// starts again at the definition - two macros calling each other, one defined inside the
+// other, got twice the depth; a macro including templates that call it again got a fresh
+// template depth in every activation. All of it is on one stack.
+type executionNesting struct {
+	calls     int // macro calls and block.Super calls being executed (maxMacroDepth, maxSuperDepth)
+	templates int // templates being executed by include/ssi (maxTemplateDepth)
+}
+
+// nested returns the nesting counters of the rendering ctx belongs to.
+func (ctx *ExecutionContext) nested() *executionNesting {
+	if ctx.nesting == nil {
+		// execution context was not created by pongo2
+		ctx.nesting = &executionNesting{}
+	}
+	return ctx.nesting
 }
 
 var pongo2MetaContext = Context{
@@ -124,22 +146,19 @@ func newExecutionContext(tpl *Template, ctx Context) *ExecutionContext {
 		Private:    privateCtx,
 		Autoescape: autoescape,
 		nodeState:  make(map[INode]any),
+		nesting:    &executionNesting{},
 	}
 }
 
 func NewChildExecutionContext(parent *ExecutionContext) *ExecutionContext {
 	newctx := &ExecutionContext{
-		template:   parent.template,
-		depth:      parent.depth,
-		superDepth: parent.superDepth,
-		// (a macro defined inside a macro body, a for or a with counts on from where
-		// its surroundings are: the bound is one bound for the whole rendering)
-		macroDepth: parent.macroDepth,
+		template: parent.template,
 
 		Public:     parent.Public,
 		Private:    make(Context),
 		Autoescape: parent.Autoescape,
 		nodeState:  parent.nodeState,
+		nesting:    parent.nested(),
 	}
 	newctx.Shared = parent.Shared
 
